@@ -13,8 +13,12 @@ use sst::log::LogOptions;
 mod kvs;
 mod reference_counter;
 mod tree;
+#[cfg(rescrv_blue_verif)]
+pub mod verif;
 mod verifier;
 
+#[cfg(rescrv_blue_verif)]
+pub use kvs::VerifMemTable;
 pub use kvs::{KeyValueStore, WriteBatch};
 pub use tree::{CompactionID, LsmTree, NUM_LEVELS};
 pub use verifier::{LsmVerifier, ManifestVerifier};
